@@ -26,6 +26,8 @@ DIRS = {
         "a.txt.abstract": b"about a\n", ".cap": {"d.txt": b"Name=Delta\n"},
     },
     "nested": {"sub": {"deep": {"f.txt": b"f"}}, "g.txt": b"g"},
+    # more entries than any batch size one might pick (256): a listing that is long enough to be written in pieces
+    "big": {"n%03d" % i: b"x" for i in range(260)},
 }
 WRITERS = ["gopher", "gopherp_dir", "http", "gemini"]
 READERS = ["gopher", "gopherp_dir", "http"]
@@ -194,7 +196,31 @@ def _shard(shard, seed, tier):
             blob = env.make_cache(d, writer)
             path = env.cache_path(d)
             n = len(blob)
-            ks = range(lo, n + 1, step)
+            ks = range(lo, n + 1, step) if step != "windows" else []
+            if step == "windows":
+                # the long cache file, quick tier: every cut in the first and the last 256 bytes, every cut within 8 bytes of
+                # a point where the prefix is a complete pickle stream (each STOP opcode), and every 101st byte
+                import pickletools
+
+                stops, pos = [], 0
+                while pos < n:
+                    try:
+                        for op, arg, off in pickletools.genops(blob[pos:]):
+                            if op.name == "STOP":
+                                stops.append(pos + off + 1)
+                                break
+                        else:
+                            break
+                    except Exception:  # noqa: not a pickle stream (another cache format): the other windows remain
+                        break
+                    if not stops or stops[-1] <= pos:
+                        break
+                    pos = stops[-1]
+                want = set(range(0, min(256, n) + 1)) | set(range(max(0, n - 256), n + 1)) | set(range(0, n + 1, 101))
+                for st in stops:
+                    want |= set(range(max(0, st - 8), min(n, st + 8) + 1))
+                allk = sorted(want)
+                ks = allk[lo::8]
             for k in ks:
                 content = blob[:k]
                 bad = _probe(env, d, reader, path, content, "cache of /%s written by %s cut at byte %d of %d, read by %s" % (d, writer, k, n, reader))
@@ -287,11 +313,14 @@ def run(ck):
     if ck.tier == "quick":
         combos = [("small", "gopher", "gopher"), ("meta", "gopherp_dir", "http"), ("empty", "http", "gopherp_dir"), ("nested", "gemini", "gopher")]
     else:
-        combos = [(d, w, r) for d in DIRS for w in WRITERS for r in READERS]
+        combos = [(d, w, r) for d in DIRS if d != "big" for w in WRITERS for r in READERS] + [("big", "gopher", "gopher")]
     nsplit = 8 if ck.tier == "quick" else 4
     for d, w, r in combos:
-        for j in range(nsplit):
-            shards.append(("dir", d, w, r, j, None, nsplit))
+        for j in range(nsplit if d != "big" else 32):
+            shards.append(("dir", d, w, r, j, None, nsplit if d != "big" else 32))
+    if ck.tier == "quick":
+        for j in range(8):
+            shards.append(("dir", "big", "gopher", "gopher", j, None, "windows"))
     for ext in (".dat", ".dir", ".bak", ""):
         shards.append(("zip", ext, "gopher"))
     for j in range(8):
@@ -307,6 +336,6 @@ def run(ck):
         "every prefix length 0..size (and a zero-filled and an 0xff-filled file of full length) of the cache file written by the real server for %d (directory, writer protocol, reader protocol) combinations, "
         "and of each file of the ZIP index cache; a writer that dies after k bytes (every k) while refreshing an expired cache of a directory that changed; then writer||reader schedules (see counters). distinct = (directory, reader, verdict, is-complete-file)" % len(combos)
     )
-    ck.bounds = {"combos": len(combos), "prefix_step": 1}
+    ck.bounds = {"combos": len(combos), "prefix_step": 1, "long_cache_file": "every prefix (thorough); quick: first/last 256 bytes, +-8 around every complete-stream point, every 101st byte"}
     ck.assumptions = ["cache lifetime is effectively infinite during the check, so every request after the first would be a cache hit",
                       "expected listing = the listing served with caching off on the same tree"]
